@@ -44,6 +44,7 @@ class FnCard:
         self.requires, self.ensures, self.loops, self.hints = [], [], {}, []
         self.sigsubs, self.bodysubs, self.resultmaps = [], [], []
         self.renames = []
+        self.iterrecvs = []
         self.tags = [t for t in opts.get('tags', '').split(',') if t]
         self.mode = opts.get('mode', 'proved')
         self.ret = opts.get('ret')
@@ -203,6 +204,8 @@ def apply_rules(card, sig, body, log):
     sig, body, hits = R.x24_mut_self(sig, body)
     for h in hits:
         log.append({'rule': 'X24', 'match': h})
+    run('X10', R.x10_custom_iter, tuple(card.iterrecvs))
+    run('X9', R.x9_iife)
     run('X3', R.x3_let_chain)
     run('X5', R.x5_then)
     run('X17', R.x17_iter_search)
@@ -566,6 +569,8 @@ def generate(repo, template_paths, twin=False):
                 card.sigsubs.append((toks[0], toks[1]))
             elif d == 'bodysub':
                 card.bodysubs.append((toks[0], toks[1], toks[2]))
+            elif d == 'customiter':
+                card.iterrecvs.append(toks[0])
             elif d == 'rename':
                 card.renames.append((toks[0], toks[1]))
             elif d == 'resultmap':
